@@ -202,7 +202,7 @@ def check_spec(ctx, spec, hook, rng=None, prefix=False):
     names0 = [c["name"] for c in spec["df"]["cols"]]
     extra = {"heading": set(), "subline_by": set()}
     for c in spec["body"].get("page_by") or []:
-        extra["heading"] |= {str(v) for v in spec["df"]["cols"][names0.index(c)]["values"]}
+        extra["heading"] |= {E.display(v) for v in spec["df"]["cols"][names0.index(c)]["values"]}
     sbc = spec["body"].get("subline_by") or []
     if sbc:
         nn = len(spec["df"]["cols"][0]["values"])
@@ -379,7 +379,9 @@ def run_shard(desc, ctx):
                                       # long labels that agree in their first 40 / 64 / 100 characters
                                       ["Population: All Participants as Treated; Treatment: Drug X " + t
                                        for t in ("10 mg", "20 mg", "10 mg bid")],
-                                      ["L" * 64 + t for t in ("a", "b", "")]])
+                                      ["L" * 64 + t for t in ("a", "b", "")],
+                                      # a level without a value: (None, A) and (None, B) are still two groups
+                                      [None, "A", "B"], [None, None, "x", "y"]])
                     runs = G.split_runs(rng, n, 6)
                     keys, prev = [], None
                     for ln in runs:
@@ -389,8 +391,8 @@ def run_shard(desc, ctx):
                         prev = k2
                         keys += [k2] * ln
                     cols2 = [[k[0] for k in keys], [k[1] for k in keys]]
-                    long_labels = max(len(x) for x in fam) > 20
-                    if rng.random() < 0.5:
+                    long_labels = max(len(x or "") for x in fam) > 20
+                    if rng.random() < 0.5 and None not in fam:
                         g = {"page_by": [], "subline_by": cols2}
                     else:
                         g = {"page_by": cols2}
